@@ -8,7 +8,9 @@ Stage 1 (this file, requirement level): parts (a) and (e) of the statement.
       (same Has-vector, same minValues, same treatment of an absent label) and checks that the label value chosen for a
       custom key (Requirement.Any) is admitted;
   (e) Any() and ToNodeClaim() (dynamic and static pools) never panic for NodePools accepted by RuntimeValidate /
-      v1.ValidateRequirement.
+      v1.ValidateRequirement - for the pool alone and for every split "pool carries the first i atoms, a pod carries the
+      rest" where the pod's requirements (NewStrictPodRequirements) pass the scheduler's own gate
+      (Compatible with AllowUndefinedWellKnownLabels) and are Added to the template the way the scheduler does.
 Stage 2 (scheduler level: (b) instance-type subset / minValues floors, (c) requests, (d) labels / taints / hash, and (a),(e)
 on NodeClaims created by Provisioner.CreateNodeClaims) is added by the scheduling module; append it to STAGES."""
 from checks import requirements_common as rc
